@@ -46,7 +46,8 @@ def ptrArm : List Reloader.Sk → List Reloader.Sk
   | [_, _, .loop (_ :: .loop [_, .branch (arm :: _)] :: _)] => arm
   | _ => []
 theorem skel_thread_answers_after_update :
-    ptrArm skel_hot_reloading_mod_hot_reloading_thread = [.call .s_update_if_local, .call .s_notify] := rfl
+    ptrArm skel_hot_reloading_mod_hot_reloading_thread =
+      [.loop [.call .s_try_recv, .branch [[.call .s_handle_events], []]], .call .s_update_if_local, .call .s_notify] := rfl
 theorem skel_update_if_local : skel_hot_reloading_paths_HotReloadingData_update_if_local =
     [.branch [[.call .s_run_update], []]] := rfl
 theorem skel_run_update : skel_hot_reloading_paths_run_update =
